@@ -1294,14 +1294,15 @@ where
             // extract the first cell of the first child on our next sibling and allocate a new cell.
             // This always happens on interior nodes rebalancing, as right_child is not set on leaf nodes.
             if let Some(right_most_child_id) = right_child
-                && let Some(next_id) = next_sibling
+                && next_sibling.is_some()
             {
-                let next_page = self.get_page_mut(next_id)?;
-
-                // Obtain the first child
-                if let Some(first_child_id) = next_page.child(0) {
-                    let child_page = self.get_page_mut(first_child_id)?;
-                    let mut cell = child_page.owned_cell(0);
+                // The key that separates our right most subtree from the next sibling is the
+                // separator the parent holds for us. (The first cell of the next sibling's first
+                // child is that key only when that child is a leaf: one level higher it is a
+                // separator INSIDE the next subtree, and the keys below it were lost to searches.)
+                let parent_page = self.get_page_mut(parent_page_id)?;
+                if slot_to_remove < parent_page.num_slots() {
+                    let mut cell = parent_page.owned_cell(slot_to_remove);
 
                     // Make the copied cell point to our right child and push it to the chain.
                     cell.set_left_child(Some(right_most_child_id));
